@@ -2,176 +2,989 @@
   C07 — ToJSONSchema describes exactly what Parse accepts.
   Model: Gozod/Model/JsonSchema.lean (accepts/out = Parse, toJS = jsonschema/to.go, jsValid = Draft 2020-12).
 -/
-import Gozod.Model.JsonSchema
+import Gozod.Proofs.C07Lemmas
 namespace Gozod.C07
 open Gozod.Jsc
 
-/-! ### keyword lists -/
+/-! ### instance-side helpers -/
 
-theorem kwsValid_ofList (l : List Kw) (c : Ctx) (x : Json) :
-    kwsValid (KwList.ofList l) c x = l.all (fun k => kwValid k c x) := by
+theorem all_congr_list (f g : Json → Bool) (h : ∀ x, instOK x = true → f x = g x) :
+    (xs : JsonList) → instListOK xs = true → xs.all f = xs.all g
+  | .nil, _ => rfl
+  | .cons x xs, hx => by
+    simp only [instListOK, Bool.and_eq_true] at hx
+    simp [JsonList.all, h x hx.1, all_congr_list f g h xs hx.2]
+
+theorem all_congr_fields (f g : Str → Json → Bool)
+    (h : ∀ k v, asciiStr k = true → instOK v = true → f k v = g k v) :
+    (fs : JsonFields) → instFieldsOK fs = true → fs.all f = fs.all g
+  | .nil, _ => rfl
+  | .cons k v fs, hx => by
+    simp only [instFieldsOK, Bool.and_eq_true] at hx
+    simp [JsonFields.all, h k v hx.1.1 hx.1.2, all_congr_fields f g h fs hx.2]
+
+theorem find_instOK (k : Str) (v : Json) :
+    (fs : JsonFields) → instFieldsOK fs = true → fs.find k = some v → instOK v = true
+  | .nil, _, h => by simp [JsonFields.find] at h
+  | .cons k' v' fs, hx, h => by
+    simp only [instFieldsOK, Bool.and_eq_true] at hx
+    simp only [JsonFields.find] at h
+    split at h
+    · cases h; exact hx.1.2
+    · exact find_instOK k v fs hx.2 h
+
+theorem drop_instOK : (n : Nat) → (xs : JsonList) → instListOK xs = true → instListOK (xs.drop n) = true
+  | 0, xs, hx => by simpa [JsonList.drop] using hx
+  | n + 1, .nil, _ => by simp [JsonList.drop, instListOK]
+  | n + 1, .cons x xs, hx => by
+    simp only [instListOK, Bool.and_eq_true] at hx
+    simpa [JsonList.drop] using drop_instOK n xs hx.2
+
+theorem isNull_iff (x : Json) : x.isNull = true ↔ x = .null := by
+  cases x <;> simp [Json.isNull]
+
+/-! ### schema-side helpers -/
+
+theorem nilType_acceptsNull (s : S) (h : s.isNilType = true) : s.acceptsNull = true := by
+  cases s <;> simp_all [S.isNilType, S.acceptsNull]
+
+theorem acceptsNull_accepts (s : S) (h : s.acceptsNull = true) : accepts s .null = true := by
+  cases s <;> simp_all [S.acceptsNull, accepts, Json.isNull]
+
+theorem docNullable_accepts (s : S) (h : s.docNullable = true) : accepts s .null = true := by
+  cases s <;> simp_all [S.docNullable, accepts, Json.isNull]
+
+theorem nilOrAny_accepts (s : S) (h : (s.isNilType || s.isAnyType) = true) : accepts s .null = true := by
+  cases s <;> simp_all [S.isNilType, S.isAnyType, accepts, Json.isNull]
+
+theorem litHomog_not_null (vs : List Prim) (h : litHomog vs = true) : vs.any (fun p => Json.isPrim .null p) = false := by
+  cases vs with
+  | nil => simp
+  | cons v vs =>
+    simp only [litHomog, Bool.and_eq_true, List.all_eq_true] at h
+    simp only [List.any_eq_false]
+    intro p hp
+    cases hp with
+    | head => cases v <;> simp_all [Prim.sameKind, Json.isPrim]
+    | tail _ hm => have := h.2 p hm; cases v <;> cases p <;> simp_all [Prim.sameKind, Json.isPrim]
+
+/-- a representable schema that does not admit nil rejects `null`. -/
+theorem accepts_null_false (top : Bool) (s : S) (h1 : s.acceptsNull = false) (h2 : reprP top s = true) :
+    accepts s .null = false := by
+  cases s <;> simp_all [S.acceptsNull, accepts, Json.isNull, reprP]
+  case lit vs => have := litHomog_not_null vs h2; simpa using this
+
+theorem propsJS_keys : (shape : Shape) → (propsJS shape).keys = shape.keys
+  | .nil => by simp [propsJS, JSProps.keys, Shape.keys]
+  | .cons k s rest => by simp [propsJS, JSProps.keys, Shape.keys, propsJS_keys rest]
+
+theorem listJS_length : (ss : SList) → (listJS ss).length = ss.length
+  | .nil => by simp [listJS, JSList.length, SList.length]
+  | .cons s ss => by simp [listJS, JSList.length, SList.length, listJS_length ss]
+
+theorem members_null : (ms : SList) → reprMembers ms = true →
+    anyAccepts ms .null = false ∧ countAccepts ms .null = 0
+  | .nil, _ => by simp [anyAccepts, countAccepts]
+  | .cons s ss, h => by
+    simp only [reprMembers, Bool.and_eq_true, Bool.not_eq_true'] at h
+    have h0 := accepts_null_false false s h.1.1 h.1.2
+    have ih := members_null ss h.2
+    simp [anyAccepts, countAccepts, h0, ih.1, ih.2]
+
+theorem members_noSpecial (ms : SList) (h : reprMembers ms = true) : unionNilSpecial ms = none := by
+  unfold unionNilSpecial
+  split
+  · rename_i a b
+    simp only [reprMembers, Bool.and_eq_true, Bool.not_eq_true'] at h
+    have ha : a.isNilType = false := by
+      cases hh : a.isNilType
+      · rfl
+      · have := nilType_acceptsNull a hh; simp_all
+    have hb : b.isNilType = false := by
+      cases hh : b.isNilType
+      · rfl
+      · have := nilType_acceptsNull b hh; simp_all
+    simp [ha, hb]
+  · rfl
+
+theorem mem_insertStr (a x : Str) (l : List Str) : a ∈ insertStr x l ↔ a = x ∨ a ∈ l := by
   induction l with
-  | nil => simp [KwList.ofList, kwsValid]
-  | cons k ks ih => simp [KwList.ofList, kwsValid, ih]
-
-theorem jsValid_node (l : List Kw) (x : Json) :
-    jsValid (.node (KwList.ofList l)) x
-      = l.all (fun k => kwValid k ⟨(KwList.ofList l).nPrefix, (KwList.ofList l).propKeys⟩ x) := by
-  simp [jsValid, kwsValid_ofList]
-
-/-! ### strings -/
-
-theorem byteLen_ascii (s : Str) (h : asciiStr s = true) : byteLen s = s.length := by
-  induction s with
-  | nil => rfl
-  | cons c cs ih =>
-    simp [asciiStr] at h
-    have ih' := ih (by simpa [asciiStr] using h.2)
-    simp [byteLen, cpWidth, h.1, ih']; omega
-
-theorem runStr_noTrim (cks : List StrCk) (s : Str) (h : noTrim cks = true) :
-    runStr cks s = if cks.all (fun c => c.holds s) then some s else none := by
-  induction cks with
-  | nil => simp [runStr]
-  | cons c cs ih =>
-    simp [noTrim] at h
-    have ih' := ih (by simpa [noTrim] using h.2)
-    cases c <;> simp_all [runStr, noTrim] <;> split <;> simp_all
-
-/-- what the string Bag means for a string. -/
-def strSem (b : StrBag) (s : Str) : Bool :=
-  (match b.minL with | some n => decide (n ≤ s.length) | none => true)
-  && (match b.maxL with | some n => decide (s.length ≤ n) | none => true)
-  && b.pats.all (fun p => p.holds s)
-
-theorem addPat_sem (b : StrBag) (p : Pat) (s : Str) :
-    strSem (b.addPat p) s = (strSem b s && p.holds s) := by
-  unfold StrBag.addPat
-  by_cases h : b.pats.contains p = true
-  · simp only [h, if_true]
-    have : p ∈ b.pats := by simpa using h
-    unfold strSem
-    cases hp : p.holds s
-    · have : b.pats.all (fun p => p.holds s) = false := by
-        simp only [List.all_eq_false]; exact ⟨p, this, by simp [hp]⟩
-      simp [this]
+  | nil => simp [insertStr]
+  | cons y ys ih =>
+    simp only [insertStr]
+    split
+    · simp only [List.mem_cons, ih]
+      constructor <;> intro h <;> rcases h with h | h | h <;> simp_all
     · simp
-  · simp only [h]
-    simp [strSem, List.all_append, Bool.and_assoc]
 
-/-- the value-side meaning of one check on an ASCII string, in code points. -/
-theorem step_sem_nolen (b : StrBag) (c : StrCk) (s : Str) (ha : asciiStr s = true)
-    (hc : ∀ n, c ≠ .len n) : strSem (b.step c) s = (strSem b s && c.holds s) := by
-  have hb := byteLen_ascii s ha
-  cases c with
-  | len n => exact absurd rfl (hc n)
-  | min n =>
-    simp only [StrBag.step, StrCk.holds, hb]
-    unfold strSem
-    cases hm : b.minL <;> simp <;> (try split) <;> simp_all <;> (try (constructor <;> intros <;> omega)) <;> grind
-  | max n =>
-    simp only [StrBag.step, StrCk.holds, hb]
-    unfold strSem
-    cases hm : b.maxL <;> simp <;> (try split) <;> simp_all <;> (try (constructor <;> intros <;> omega)) <;> grind
-  | sw p => simp [StrBag.step, addPat_sem, StrCk.holds, Pat.holds]
-  | ew p => simp [StrBag.step, addPat_sem, StrCk.holds, Pat.holds]
-  | inc p => simp [StrBag.step, addPat_sem, StrCk.holds, Pat.holds]
-  | lower => simp [StrBag.step, addPat_sem, StrCk.holds, Pat.holds]
-  | upper => simp [StrBag.step, addPat_sem, StrCk.holds, Pat.holds]
-  | trim => simp [StrBag.step, StrCk.holds]
+theorem mem_sortStrs (a : Str) (vs : List Str) : a ∈ sortStrs vs ↔ a ∈ vs := by
+  induction vs with
+  | nil => simp [sortStrs]
+  | cons v vs ih =>
+    simp only [sortStrs, List.foldr_cons] at ih ⊢
+    rw [mem_insertStr, ih]; simp
 
-theorem fold_sem_lenFree (cs : List StrCk) (b : StrBag) (s : Str) (ha : asciiStr s = true)
-    (h : strLenOK.lenFree cs = true) :
-    strSem (cs.foldl StrBag.step b) s = (strSem b s && cs.all (fun c => c.holds s)) := by
-  induction cs generalizing b with
-  | nil => simp
-  | cons c cs ih =>
-    have hc : ∀ n, c ≠ .len n := by
-      intro n hn; subst hn; simp [strLenOK.lenFree] at h
-    have h' : strLenOK.lenFree cs = true := by
-      cases c <;> simp_all [strLenOK.lenFree]
-    simp only [List.foldl_cons, List.all_cons]
-    rw [ih _ h', step_sem_nolen b c s ha hc, Bool.and_assoc]
+theorem sortStrs_contains (vs : List Str) (s : Str) : (sortStrs vs).contains s = vs.contains s := by
+  rw [Bool.eq_iff_iff]; simp [mem_sortStrs]
 
-theorem fold_sem_lenOK (cs : List StrCk) (b : StrBag) (s : Str) (ha : asciiStr s = true)
-    (h : strLenOK cs = true) (h1 : b.minL = none) (h2 : b.maxL = none) :
-    strSem (cs.foldl StrBag.step b) s = (strSem b s && cs.all (fun c => c.holds s)) := by
-  induction cs generalizing b with
-  | nil => simp
-  | cons c cs ih =>
-    simp only [List.foldl_cons, List.all_cons]
-    cases c with
-    | len n =>
-      have h' : strLenOK.lenFree cs = true := by simpa [strLenOK] using h
-      rw [fold_sem_lenFree cs _ s ha h']
-      have hb := byteLen_ascii s ha
-      simp only [StrBag.step, strSem, h1, h2, StrCk.holds, hb]
-      cases b.pats.all (fun p => p.holds s) <;> cases cs.all (fun c => c.holds s) <;> simp <;> omega
-    | min n =>
-      have h' : strLenOK.lenFree cs = true := by simpa [strLenOK] using h
-      rw [fold_sem_lenFree cs _ s ha h', step_sem_nolen b _ s ha (by intro m; simp), Bool.and_assoc]
-    | max n =>
-      have h' : strLenOK.lenFree cs = true := by simpa [strLenOK] using h
-      rw [fold_sem_lenFree cs _ s ha h', step_sem_nolen b _ s ha (by intro m; simp), Bool.and_assoc]
-    | sw p =>
-      have h' : strLenOK cs = true := by simpa [strLenOK] using h
-      rw [ih _ h' (by simp [StrBag.step, StrBag.addPat]; split <;> simp [h1]) (by simp [StrBag.step, StrBag.addPat]; split <;> simp [h2]),
-          step_sem_nolen b _ s ha (by intro m; simp), Bool.and_assoc]
-    | ew p =>
-      have h' : strLenOK cs = true := by simpa [strLenOK] using h
-      rw [ih _ h' (by simp [StrBag.step, StrBag.addPat]; split <;> simp [h1]) (by simp [StrBag.step, StrBag.addPat]; split <;> simp [h2]),
-          step_sem_nolen b _ s ha (by intro m; simp), Bool.and_assoc]
-    | inc p =>
-      have h' : strLenOK cs = true := by simpa [strLenOK] using h
-      rw [ih _ h' (by simp [StrBag.step, StrBag.addPat]; split <;> simp [h1]) (by simp [StrBag.step, StrBag.addPat]; split <;> simp [h2]),
-          step_sem_nolen b _ s ha (by intro m; simp), Bool.and_assoc]
-    | lower =>
-      have h' : strLenOK cs = true := by simpa [strLenOK] using h
-      rw [ih _ h' (by simp [StrBag.step, StrBag.addPat]; split <;> simp [h1]) (by simp [StrBag.step, StrBag.addPat]; split <;> simp [h2]),
-          step_sem_nolen b _ s ha (by intro m; simp), Bool.and_assoc]
-    | upper =>
-      have h' : strLenOK cs = true := by simpa [strLenOK] using h
-      rw [ih _ h' (by simp [StrBag.step, StrBag.addPat]; split <;> simp [h1]) (by simp [StrBag.step, StrBag.addPat]; split <;> simp [h2]),
-          step_sem_nolen b _ s ha (by intro m; simp), Bool.and_assoc]
-    | trim =>
-      have h' : strLenOK cs = true := by simpa [strLenOK] using h
-      rw [ih _ h' (by simp [StrBag.step, h1]) (by simp [StrBag.step, h2]),
-          step_sem_nolen b _ s ha (by intro m; simp), Bool.and_assoc]
+/-! ### the homomorphism theorem on the value-preserving fragment -/
 
-theorem allValid_pats (ps : List Pat) (s : Str) :
-    allValid (ps.foldr (fun p acc => JSList.cons (.node (.cons (.pattern p) .nil)) acc) .nil) (.str s)
-      = ps.all (fun p => p.holds s) := by
-  induction ps with
-  | nil => simp [allValid]
-  | cons p ps ih => simp [allValid, jsValid, kwsValid, kwValid, ih]
+theorem bool_case (x : Json) : jsValid (.node (KwList.ofList [.type .boolean])) x = accepts .bool x := by
+  cases x <;> simp [jsValid_node, kwValid, typeOk, accepts]
 
-/-- the string keywords on a string instance mean the Bag. -/
-theorem strKws_valid (cks : List StrCk) (c : Ctx) (s : Str) :
-    (strKws cks).all (fun k => kwValid k c (.str s)) = strSem (strBag cks) s := by
-  unfold strKws strSem
-  simp only [List.all_append, List.all_cons, List.all_nil, kwValid, typeOk, Bool.true_and, Bool.and_true]
-  have hp : ((match (strBag cks).pats with
-      | [] => []
-      | [p] => [Kw.pattern p]
-      | ps => [Kw.allOf (ps.foldr (fun p acc => JSList.cons (.node (.cons (.pattern p) .nil)) acc) .nil)]).all
-        (fun k => kwValid k c (.str s))) = (strBag cks).pats.all (fun p => p.holds s) := by
-    match h : (strBag cks).pats with
-    | [] => simp
-    | [p] => simp [kwValid]
-    | p :: q :: ps => simp only [List.all_cons, List.all_nil, kwValid, allValid_pats, Bool.and_true]
-  rw [hp]
-  cases (strBag cks).minL <;> cases (strBag cks).maxL <;> simp [optKw, kwValid] <;>
-    cases (strBag cks).pats.all (fun p => p.holds s) <;> simp <;> (try (constructor <;> intros <;> simp_all))
+theorem nil_case (x : Json) : jsValid nullJS x = accepts .nil x := by
+  cases x <;> simp [nullJS, jsValid, kwsValid, kwValid, typeOk, accepts, Json.isNull]
 
-theorem str_case (cks : List StrCk) (x : Json) (h1 : strLenOK cks = true) (h2 : noTrim cks = true)
-    (hx : instOK x = true) :
-    jsValid (.node (KwList.ofList (strKws cks))) x = accepts (.str cks) x := by
+theorem nullJS_valid (x : Json) : jsValid nullJS x = x.isNull := by
+  cases x <;> simp [nullJS, jsValid, kwsValid, kwValid, typeOk, Json.isNull]
+
+theorem enum_case (vs : List Str) (x : Json) :
+    jsValid (.node (KwList.ofList [.enum ((sortStrs vs).map .str), .type .string])) x = accepts (.enum vs) x := by
   cases x with
   | str s =>
-    have ha : asciiStr s = true := by simpa [instOK] using hx
-    rw [jsValid_node, strKws_valid, strBag, fold_sem_lenOK cks {} s ha h1 rfl rfl]
-    simp [accepts, runStr_noTrim cks s h2, strSem]
-    split <;> simp_all
-  | _ => simp [jsValid_node, strKws, kwValid, typeOk, accepts]
+    simp only [jsValid_node, List.all_cons, List.all_nil, kwValid, typeOk, accepts, Bool.and_true]
+    rw [← sortStrs_contains vs s, Bool.eq_iff_iff]
+    simp [Json.isPrim]
+  | _ => simp [jsValid_node, kwValid, typeOk, accepts]
+
+theorem litVal_valid (vs : List Prim) (c : Ctx) (x : Json) :
+    (litVal vs).all (fun k => kwValid k c x) = vs.any (fun p => x.isPrim p) := by
+  match vs with
+  | [] => simp [litVal, kwValid]
+  | [v] => simp [litVal, kwValid]
+  | v :: w :: vs => simp [litVal, kwValid]
+
+theorem lit_case (vs : List Prim) (x : Json) (h : litHomog vs = true) :
+    jsValid (.node (KwList.ofList (litType vs ++ litVal vs))) x = accepts (.lit vs) x := by
+  cases vs with
+  | nil => simp [litHomog] at h
+  | cons v vs =>
+    rw [jsValid_node]
+    simp only [List.all_append, accepts, litVal_valid]
+    simp only [litHomog, Bool.and_eq_true, List.all_eq_true] at h
+    by_cases hany : (v :: vs).any (fun p => x.isPrim p) = true
+    · rw [hany, Bool.and_true]
+      simp only [List.any_eq_true] at hany
+      obtain ⟨p, hp, hx⟩ := hany
+      have hk : v.sameKind p = true := by
+        cases hp with
+        | head => exact h.1
+        | tail _ hm => exact h.2 p hm
+      cases v <;> cases p <;> cases x <;> simp_all [Prim.sameKind, Json.isPrim, litType, kwValid, typeOk]
+    · have : (v :: vs).any (fun p => x.isPrim p) = false := by simpa using hany
+      rw [this, Bool.and_false]
+
+theorem szOk_nil (l : Nat) : szOk [] l = true := by simp [szOk]
+
+theorem length_zero_nil (ss : SList) (h : (ss.length == 0) = true) : ss = .nil := by
+  cases ss <;> simp_all [SList.length]
+
+theorem fields_all_true : (fs : JsonFields) → fs.all (fun _ _ => true) = true
+  | .nil => rfl
+  | .cons _ _ fs => by simp [JsonFields.all, fields_all_true fs]
+
+theorem props_kw_valid (shape : Shape) (c : Ctx) (fs : JsonFields) :
+    (if shape.keys.isEmpty then [] else [Kw.properties (propsJS shape)]).all (fun k => kwValid k c (.obj fs))
+      = propsValid (propsJS shape) fs := by
+  by_cases hk : shape.keys.isEmpty = true
+  · have : shape = .nil := by cases shape <;> simp_all [Shape.keys]
+    subst this; simp [Shape.keys, propsJS, propsValid]
+  · simp [hk, kwValid]
+
+theorem req_kw_valid (shape : Shape) (c : Ctx) (fs : JsonFields) :
+    (if (requiredKeys shape).isEmpty then [] else [Kw.required (requiredKeys shape)]).all (fun k => kwValid k c (.obj fs))
+      = (requiredKeys shape).all (fun k => fs.hasKey k) := by
+  by_cases hk : (requiredKeys shape).isEmpty = true
+  · have : requiredKeys shape = [] := by simpa using hk
+    simp [this]
+  · simp [hk, kwValid]
+
+theorem propKeys_append_noprops (a b : List Kw) (hb : ∀ k ∈ a, ∀ ps, k ≠ Kw.properties ps) :
+    (KwList.ofList (a ++ b)).propKeys = (KwList.ofList b).propKeys := by
+  induction a with
+  | nil => rfl
+  | cons k ks ih =>
+    have hk := hb k (by simp)
+    have := ih (fun k' hk' => hb k' (by simp [hk']))
+    cases k <;> simp_all [KwList.ofList, KwList.propKeys]
+
+theorem propsKws_noprops (b : SzBag) : ∀ k ∈ propsKws b, ∀ ps, k ≠ Kw.properties ps := by
+  intro k hk ps
+  obtain ⟨mn, mx⟩ := b
+  cases mn <;> cases mx <;> simp [propsKws, optKw] at hk <;> (try rcases hk with rfl | rfl) <;> simp_all
+
+theorem propsKws_propKeys (b : SzBag) (pre : List Kw) (hp : ∀ k ∈ pre, ∀ ps, k ≠ Kw.properties ps) :
+    (KwList.ofList (pre ++ propsKws b)).propKeys = [] := by
+  rw [propKeys_append_noprops pre _ hp, ← List.append_nil (propsKws b),
+    propKeys_append_noprops _ [] (propsKws_noprops b)]
+  rfl
+
+theorem lenBag_nil : lengthKws (lenBag []) = [] := by simp [lenBag, lengthKws, optKw]
+
+theorem obj_propKeys (shape : Shape) (j : JS) (tail : List Kw)
+    (ht : ∀ k ∈ tail, ∀ ps, k ≠ Kw.properties ps) :
+    (KwList.ofList ([Kw.type .object] ++ (if shape.keys.isEmpty then [] else [Kw.properties (propsJS shape)])
+        ++ (if (requiredKeys shape).isEmpty then [] else [Kw.required (requiredKeys shape)])
+        ++ [Kw.additionalProperties j] ++ tail)).propKeys = shape.keys := by
+  by_cases hk : shape.keys.isEmpty = true
+  · have hk' : shape.keys = [] := by simpa using hk
+    simp only [hk, if_true, List.append_nil, List.append_assoc]
+    rw [propKeys_append_noprops]
+    · rw [propKeys_append_noprops]
+      · rw [propKeys_append_noprops _ tail (by simp)]
+        rw [← List.append_nil tail, propKeys_append_noprops tail [] ht]
+        simp [KwList.ofList, KwList.propKeys, hk']
+      · intro k hk2 ps; split at hk2 <;> simp_all
+    · simp
+  · simp [hk, KwList.ofList, KwList.propKeys, propsJS_keys]
+
+theorem nPrefix_none (t : List Kw) (ht : ∀ k ∈ t, ∀ js, k ≠ Kw.prefixItems js) : (KwList.ofList t).nPrefix = 0 := by
+  induction t with
+  | nil => rfl
+  | cons k ks ih =>
+    have h1 := ht k (by simp)
+    have h2 := ih (fun k' hk' => ht k' (by simp [hk']))
+    cases k <;> simp_all [KwList.ofList, KwList.nPrefix]
+
+theorem prefix_nPrefix (items : SList) (tail : List Kw) (ht : ∀ k ∈ tail, ∀ js, k ≠ Kw.prefixItems js) :
+    (KwList.ofList ([Kw.type .array] ++ ((if (items.length == 0) = true then [] else [Kw.prefixItems (listJS items)])
+      ++ tail))).nPrefix = items.length := by
+  by_cases h0 : (items.length == 0) = true
+  · have hz : items.length = 0 := by simpa using h0
+    simp only [h0, if_true, List.nil_append, hz]
+    refine nPrefix_none _ ?_
+    intro k hk
+    rcases List.mem_append.1 hk with hk | hk
+    · intro js; simp at hk; subst hk; simp
+    · exact ht k hk
+  · simp [h0, KwList.ofList, KwList.nPrefix, listJS_length]
+
+theorem prefix_kw_valid (items : SList) (xs : JsonList) (c : Ctx)
+    (hit : prefixValid (listJS items) xs = itemsAccept items xs) :
+    (if (items.length == 0) = true then [] else [Kw.prefixItems (listJS items)]).all
+      (fun k => kwValid k c (.arr xs)) = itemsAccept items xs := by
+  by_cases h0 : (items.length == 0) = true
+  · have hnil := length_zero_nil items h0
+    subst hnil; simp [itemsAccept, SList.length]
+  · simp [h0, kwValid, hit]
+
+mutual
+theorem eqv : (s : S) → (top o n : Bool) → (x : Json) → reprP top s = true → instOK x = true →
+    jsValid (toJS top o n s) x = accepts s x
+  | .str cks, top, o, n, x, h, hx => by
+    simp only [reprP, Bool.and_eq_true] at h
+    simpa [toJS] using str_case cks x h.1 h.2 hx
+  | .int k cks, top, o, n, x, h, hx => by
+    simp only [reprP, Bool.and_eq_true] at h
+    simpa [toJS] using int_case top k cks x h.1 h.2 hx
+  | .flt cks, top, o, n, x, h, hx => by
+    simp only [reprP] at h
+    simpa [toJS] using flt_case top cks x h hx
+  | .bool, top, o, n, x, h, hx => by simpa [toJS] using bool_case x
+  | .nil, top, o, n, x, h, hx => by simpa [toJS] using nil_case x
+  | .any, top, o, n, x, h, hx => by
+    simp [toJS, jsValid_node, kwValid, anyValid, jsValid, kwsValid, accepts]
+  | .never, top, o, n, x, h, hx => by
+    simp [toJS, jsValid_node, kwValid, jsValid, accepts]
+  | .enum vs, top, o, n, x, h, hx => by simpa [toJS] using enum_case vs x
+  | .lit vs, top, o, n, x, h, hx => by
+    simp only [reprP] at h
+    simpa [toJS] using lit_case vs x h
+  | .opt s, top, o, n, x, h, hx => by
+    simp only [reprP, Bool.and_eq_true] at h
+    have ih := eqv s top true n x h.2 hx
+    simp only [toJS, accepts, ih]
+    cases hn : x.isNull
+    · simp
+    · have := (isNull_iff x).1 hn; subst this
+      simp [docNullable_accepts s h.1]
+  | .nul s, top, o, n, x, h, hx => by
+    simp only [reprP] at h
+    have ih := eqv s top o true x h hx
+    simp only [toJS, accepts]
+    split
+    · rename_i hs
+      rw [ih]
+      cases hn : x.isNull
+      · simp
+      · have := (isNull_iff x).1 hn; subst this
+        simp [nilOrAny_accepts s hs]
+    · simp [jsValid_node, kwValid, anyValid, ih, nullJS_valid, Bool.or_comm]
+  | .obj mode ca part cks shape, top, o, n, x, h, hx => by
+    simp only [reprP, Bool.and_eq_true, Bool.not_eq_true'] at h
+    obtain ⟨⟨⟨⟨⟨hm, hp⟩, hsc⟩, hsz⟩, hca⟩, hsh⟩ := h
+    subst hp
+    cases x with
+    | obj fs =>
+      have hfs : instFieldsOK fs = true := by simpa [instOK] using hx
+      have hshape := eqvShape shape hsh fs hfs
+      have hadd : ∀ keys : List Str, fs.all (fun k v => keys.contains k || jsValid (caJS ca mode.isLoose) v)
+          = (match mode with
+              | .strict => fs.all (fun k _ => keys.contains k)
+              | .strip => true
+              | .loose => catchAccepts ca keys fs) := by
+        intro keys
+        cases mode with
+        | strip => simp [Mode.isStrip] at hm
+        | strict =>
+          cases ca with
+          | some c => simp [Mode.isStrict, SOpt.isSome] at hsc
+          | none => simp [caJS, jsValid, Mode.isLoose]
+        | loose =>
+          cases ca with
+          | none =>
+            simp only [caJS, jsValid, Bool.or_true, catchAccepts, Mode.isLoose]
+            exact fields_all_true fs
+          | some c =>
+            simp only [caJS, catchAccepts]
+            exact all_congr_fields _ _ (fun k v _ hv => by
+              rw [eqv c false false false v (by simpa [reprCa] using hca) hv]) fs hfs
+      have hk := obj_propKeys shape (caJS ca mode.isLoose) (propsKws (szBag cks)) (propsKws_noprops _)
+      simp only [toJS, jsValid_node]
+      rw [hk]
+      simp only [List.all_append, List.all_cons, List.all_nil, Bool.and_true, kwValid, typeOk, Bool.true_and,
+        propsKws_valid cks _ fs hsz, accepts, props_kw_valid, req_kw_valid, hadd]
+      rw [← hshape]
+      cases mode with
+      | strip => simp [Mode.isStrip] at hm
+      | strict => simp [Bool.and_assoc]
+      | loose => simp [Bool.and_assoc]
+    | _ => simp [toJS, jsValid_node, kwValid, typeOk, accepts]
+  | .slice e cks, top, o, n, x, h, hx => by
+    simp only [reprP, Bool.and_eq_true] at h
+    cases x with
+    | arr xs =>
+      have hxs : instListOK xs = true := by simpa [instOK] using hx
+      simp only [toJS, jsValid_node]
+      simp only [List.all_append, List.all_cons, List.all_nil, Bool.and_true, kwValid, typeOk, Bool.true_and,
+        itemsKws_valid cks _ xs h.1, accepts]
+      have hnp : (KwList.ofList ([Kw.type .array, Kw.items (toJS false false false e)] ++ itemsKws (szBag cks))).nPrefix = 0 := by
+        simp [itemsKws, optKw, KwList.ofList, KwList.nPrefix]
+        cases (szBag cks).minN <;> cases (szBag cks).maxN <;> simp [KwList.ofList, KwList.nPrefix]
+      rw [hnp]
+      simp only [JsonList.drop]
+      rw [all_congr_list _ _ (fun v hv => eqv e false false false v h.2 hv) xs hxs, Bool.and_comm]
+    | _ => simp [toJS, jsValid_node, kwValid, typeOk, accepts]
+  | .arr rest cks items, top, o, n, x, h, hx => by
+    simp only [reprP, Bool.and_eq_true] at h
+    obtain ⟨⟨⟨hck, hlen⟩, hrest⟩, hitems⟩ := h
+    have hck' : cks = [] := by simpa using hck
+    subst hck'
+    cases x with
+    | arr xs =>
+      have hxs : instListOK xs = true := by simpa [instOK] using hx
+      have hit := eqvItems items hitems xs hxs
+      cases rest with
+      | some r =>
+        have hr : reprP false r = true := by simpa [reprCa] using hrest
+        have hz : items.length = 0 := by simpa using hlen
+        simp only [toJS, lenBag_nil, List.append_nil, List.append_assoc, jsValid_node]
+        rw [prefix_nPrefix items [Kw.items (toJS false false false r)] (by simp)]
+        simp only [List.all_append, List.all_cons, List.all_nil, Bool.and_true, kwValid, typeOk, Bool.true_and,
+          prefix_kw_valid items xs _ hit, accepts, szOk_nil, restAccepts]
+        rw [all_congr_list _ _ (fun v hv => eqv r false false false v hr hv) _ (drop_instOK _ xs hxs)]
+        simp [hz]
+      | none =>
+        have hne : (items.length == 1) = false := by simpa using hlen
+        simp only [toJS, lenBag_nil, List.append_nil, List.append_assoc, jsValid_node, hne]
+        simp only [List.all_append, List.all_cons, List.all_nil, Bool.and_true, kwValid, typeOk, Bool.true_and,
+          prefix_kw_valid items xs _ hit, accepts, szOk_nil, restAccepts, Bool.false_eq_true, if_false]
+        rw [Bool.eq_iff_iff]; simp; constructor
+        · rintro ⟨h1, h2, h3⟩; exact ⟨by omega, h1⟩
+        · rintro ⟨h1, h2⟩; exact ⟨h2, by omega, by omega⟩
+    | _ => cases rest <;> simp [toJS, jsValid_node, kwValid, typeOk, accepts]
+  | .tup rest cks items, top, o, n, x, h, hx => by
+    simp only [reprP, Bool.and_eq_true] at h
+    obtain ⟨⟨⟨hck, hreq⟩, hrest⟩, hitems⟩ := h
+    have hck' : cks = [] := by simpa using hck
+    subst hck'
+    cases x with
+    | arr xs =>
+      have hxs : instListOK xs = true := by simpa [instOK] using hx
+      have hit := eqvItems items hitems xs hxs
+      cases rest with
+      | some r =>
+        have hr : reprP false r = true := by simpa [reprCa] using hrest
+        have hrq : reqCount items = 0 := by simpa using hreq
+        simp only [toJS, lenBag_nil, List.append_nil, List.append_assoc, jsValid_node]
+        rw [prefix_nPrefix items [Kw.items (toJS false false false r)] (by simp)]
+        simp only [List.all_append, List.all_cons, List.all_nil, Bool.and_true, kwValid, typeOk, Bool.true_and,
+          prefix_kw_valid items xs _ hit, accepts, hrq, szOk_nil, restAccepts]
+        rw [all_congr_list _ _ (fun v hv => eqv r false false false v hr hv) _ (drop_instOK _ xs hxs)]
+        simp
+      | none =>
+        simp only [toJS, lenBag_nil, List.append_nil, List.append_assoc, jsValid_node]
+        simp only [List.all_append, List.all_cons, List.all_nil, Bool.and_true, kwValid, typeOk, Bool.true_and,
+          prefix_kw_valid items xs _ hit, accepts, szOk_nil, restAccepts]
+        rw [Bool.eq_iff_iff]; simp; constructor
+        · rintro ⟨h1, h2, h3⟩; exact ⟨⟨h2, h3⟩, h1⟩
+        · rintro ⟨⟨h1, h2⟩, h3⟩; exact ⟨h3, h1, h2⟩
+    | _ => cases rest <;> simp [toJS, jsValid_node, kwValid, typeOk, accepts]
+  | .record key val cks, top, o, n, x, h, hx => by
+    simp only [reprP, Bool.and_eq_true] at h
+    obtain ⟨⟨⟨hks, hkey⟩, hsz⟩, hval⟩ := h
+    cases x with
+    | obj fs =>
+      have hfs : instFieldsOK fs = true := by simpa [instOK] using hx
+      have hpk := propsKws_propKeys (szBag cks)
+        [Kw.type .object, Kw.propertyNames (toJS false false false key), Kw.additionalProperties (toJS false false false val)]
+        (by simp)
+      simp only [toJS, jsValid_node]
+      rw [hpk]
+      simp only [List.all_append, List.all_cons, List.all_nil, Bool.and_true, kwValid, typeOk, Bool.true_and,
+        propsKws_valid cks _ fs hsz, accepts]
+      have h1 : fs.all (fun k _ => jsValid (toJS false false false key) (.str k)) = fs.all (fun k _ => accepts key (.str k)) :=
+        all_congr_fields _ _ (fun k v hk _ => eqv key false false false (.str k) hkey (by simpa [instOK] using hk)) fs hfs
+      have h2 : fs.all (fun k v => ([] : List Str).contains k || jsValid (toJS false false false val) v)
+          = fs.all (fun _ v => accepts val v) :=
+        all_congr_fields _ _ (fun k v _ hv => by simp [eqv val false false false v hval hv]) fs hfs
+      rw [h1, h2]
+      cases key <;> simp [S.isStrSchema] at hks
+      simp only [accepts]
+      generalize szOk cks fs.size = A
+      generalize JsonFields.all (fun x v => accepts val v) fs = B
+      generalize JsonFields.all _ fs = C
+      cases A <;> cases B <;> cases C <;> rfl
+    | _ => simp [toJS, jsValid_node, kwValid, typeOk, accepts]
+  | .union ms, top, o, n, x, h, hx => by
+    simp only [reprP, Bool.and_eq_true] at h
+    have hsp := members_noSpecial ms h.2
+    have hnull := members_null ms h.2
+    simp only [toJS, hsp, jsValid_node, List.all_cons, List.all_nil, kwValid, Bool.and_true, accepts,
+      eqvAny ms h.2 x hx]
+    cases hn : x.isNull
+    · simp
+    · have := (isNull_iff x).1 hn; subst this
+      simp [hnull.1]
+  | .xor ms, top, o, n, x, h, hx => by
+    simp only [reprP, Bool.and_eq_true] at h
+    have hnull := members_null ms h.2
+    simp only [toJS, jsValid_node, List.all_cons, List.all_nil, kwValid, Bool.and_true, accepts,
+      eqvCount ms h.2 x hx]
+    cases hn : x.isNull
+    · simp
+    · have := (isNull_iff x).1 hn; subst this
+      simp [hnull.2]
+  | .and l r, top, o, n, x, h, hx => by
+    simp only [reprP, Bool.and_eq_true, Bool.not_eq_true'] at h
+    obtain ⟨⟨⟨⟨⟨hl, hr⟩, _⟩, _⟩, hpl⟩, hpr⟩ := h
+    simp only [toJS, jsValid_node, List.all_cons, List.all_nil, kwValid, Bool.and_true, accepts, allValid,
+      eqv l false false false x hpl hx, eqv r false false false x hpr hx]
+    cases hn : x.isNull
+    · simp
+    · have := (isNull_iff x).1 hn; subst this
+      simp [accepts_null_false false l hl hpl]
+
+theorem eqvItems : (items : SList) → reprList items = true → (xs : JsonList) → instListOK xs = true →
+    prefixValid (listJS items) xs = itemsAccept items xs
+  | .nil, _, _, _ => by simp [listJS, prefixValid, itemsAccept]
+  | .cons s ss, h, .nil, _ => by simp [listJS, prefixValid, itemsAccept]
+  | .cons s ss, h, .cons x xs, hx => by
+    simp only [reprList, Bool.and_eq_true] at h
+    simp only [instListOK, Bool.and_eq_true] at hx
+    simp [listJS, prefixValid, itemsAccept, eqv s false false false x h.1 hx.1, eqvItems ss h.2 xs hx.2]
+
+theorem eqvAny : (ms : SList) → reprMembers ms = true → (x : Json) → instOK x = true →
+    anyValid (listJS ms) x = anyAccepts ms x
+  | .nil, _, _, _ => by simp [listJS, anyValid, anyAccepts]
+  | .cons s ss, h, x, hx => by
+    simp only [reprMembers, Bool.and_eq_true] at h
+    simp [listJS, anyValid, anyAccepts, eqv s false false false x h.1.2 hx, eqvAny ss h.2 x hx]
+
+theorem eqvCount : (ms : SList) → reprMembers ms = true → (x : Json) → instOK x = true →
+    countValid (listJS ms) x = countAccepts ms x
+  | .nil, _, _, _ => by simp [listJS, countValid, countAccepts]
+  | .cons s ss, h, x, hx => by
+    simp only [reprMembers, Bool.and_eq_true] at h
+    simp [listJS, countValid, countAccepts, eqv s false false false x h.1.2 hx, eqvCount ss h.2 x hx]
+
+theorem eqvShape : (shape : Shape) → reprShape shape = true → (fs : JsonFields) → instFieldsOK fs = true →
+    (propsValid (propsJS shape) fs && (requiredKeys shape).all (fun k => fs.hasKey k)) = shapeAccepts false shape fs
+  | .nil, _, _, _ => by simp [propsJS, propsValid, requiredKeys, shapeAccepts]
+  | .cons k s rest, h, fs, hfs => by
+    simp only [reprShape, Bool.and_eq_true] at h
+    have ih := eqvShape rest h.2 fs hfs
+    simp only [propsJS, propsValid, requiredKeys, shapeAccepts, Bool.false_or]
+    rw [← ih]
+    cases hf : fs.find k with
+    | none =>
+      cases ho : s.isOpt <;> simp [hf, ho, JsonFields.hasKey]
+    | some v =>
+      have hv := find_instOK k v fs hfs hf
+      have he := eqv s false false false v h.1 hv
+      cases ho : s.isOpt <;> simp [hf, ho, he, JsonFields.hasKey] <;>
+        cases accepts s v <;> cases propsValid (propsJS rest) fs <;> simp
+end
+
+/-! ### value preservation: on `reprP` schemas Parse returns its input -/
+
+theorem filter_notHas : (a b : JsonFields) → (∀ k, b.hasKey k = true → a.hasKey k = true) →
+    b.filter (fun k => !a.hasKey k) = .nil
+  | _, .nil, _ => rfl
+  | a, .cons k v b, h => by
+    have hk : a.hasKey k = true := h k (by simp [JsonFields.hasKey, JsonFields.find])
+    have ih := filter_notHas a b (fun k' hk' => h k' (by
+      simp only [JsonFields.hasKey, JsonFields.find] at hk' ⊢
+      split <;> simp_all))
+    simp [JsonFields.filter, hk, ih]
+
+theorem append_nil_fields : (a : JsonFields) → a.append .nil = a
+  | .nil => rfl
+  | .cons k v a => by simp [JsonFields.append, append_nil_fields a]
+
+theorem mergeOut_self (x : Json) : mergeOut x x = x := by
+  cases x <;> simp [mergeOut]
+  rename_i fs
+  rw [filter_notHas fs fs (fun _ h => h), append_nil_fields]
+
+theorem map_eq_self (f : Json → Json) (p : Json → Bool) (hf : ∀ x, p x = true → f x = x) :
+    (xs : JsonList) → xs.all p = true → xs.map f = xs
+  | .nil, _ => rfl
+  | .cons x xs, h => by
+    simp only [JsonList.all, Bool.and_eq_true] at h
+    simp [JsonList.map, hf x h.1, map_eq_self f p hf xs h.2]
+
+theorem list_all_true : (xs : JsonList) → xs.all (fun _ => true) = true
+  | .nil => rfl
+  | .cons _ xs => by simp [JsonList.all, list_all_true xs]
+
+mutual
+theorem pres : (s : S) → (top : Bool) → (x : Json) → reprP top s = true → accepts s x = true → out s x = x
+  | .str cks, top, x, h, ha => by
+    simp only [reprP, Bool.and_eq_true] at h
+    cases x <;> simp [accepts] at ha
+    rename_i t
+    simp only [out]
+    rw [runStr_noTrim cks t h.2] at ha ⊢
+    split at ha <;> simp_all
+  | .opt s, top, x, h, ha => by
+    simp only [reprP, Bool.and_eq_true] at h
+    simp only [out]
+    split
+    · rfl
+    · rename_i hn
+      simp only [accepts, Bool.or_eq_true] at ha
+      exact pres s top x h.2 (by rcases ha with ha | ha <;> simp_all)
+  | .nul s, top, x, h, ha => by
+    simp only [reprP] at h
+    simp only [out]
+    split
+    · rfl
+    · rename_i hn
+      simp only [accepts, Bool.or_eq_true] at ha
+      exact pres s top x h (by rcases ha with ha | ha <;> simp_all)
+  | .obj mode ca part cks shape, top, x, h, ha => by
+    simp only [reprP, Bool.and_eq_true] at h
+    cases mode <;> simp_all [out, Mode.isStrip]
+  | .tup rest cks items, top, x, h, ha => by
+    simp only [reprP, Bool.and_eq_true] at h
+    cases x <;> simp [accepts] at ha
+    rename_i xs
+    simp only [out]
+    congr 1
+    exact presItems items (outRest rest) xs h.2 ha.1.1.2 (presRest rest _ h.1.2 ha.1.2)
+  | .union ms, top, x, h, ha => by
+    simp only [reprP, Bool.and_eq_true] at h
+    simp only [out]
+    exact presFirst ms x h.2
+  | .xor ms, top, x, h, ha => by
+    simp only [reprP, Bool.and_eq_true] at h
+    simp only [out]
+    exact presFirst ms x h.2
+  | .and l r, top, x, h, ha => by
+    simp only [reprP, Bool.and_eq_true] at h
+    simp only [accepts, Bool.and_eq_true] at ha
+    simp only [out]
+    rw [pres l false x h.1.2 ha.1.2, pres r false x h.2 ha.2, mergeOut_self]
+  | .int _ _, _, _, _, _ => rfl
+  | .flt _, _, _, _, _ => rfl
+  | .bool, _, _, _, _ => rfl
+  | .nil, _, _, _, _ => rfl
+  | .any, _, _, _, _ => rfl
+  | .never, _, _, _, _ => rfl
+  | .enum _, _, _, _, _ => rfl
+  | .lit _, _, _, _, _ => rfl
+  | .slice _ _, _, _, _, _ => rfl
+  | .arr _ _ _, _, _, _, _ => rfl
+  | .record _ _ _, _, _, _, _ => rfl
+
+theorem presItems : (items : SList) → (f : Json → Json) → (xs : JsonList) → reprList items = true →
+    itemsAccept items xs = true → (xs.drop items.length).map f = xs.drop items.length →
+    outItems items f xs = xs
+  | .nil, f, xs, _, _, hra => by
+    simpa [outItems, SList.length, JsonList.drop] using hra
+  | .cons s ss, f, .nil, _, _, _ => rfl
+  | .cons s ss, f, .cons x xs, h, ha, hra => by
+    simp only [reprList, Bool.and_eq_true] at h
+    simp only [itemsAccept, Bool.and_eq_true] at ha
+    simp only [SList.length, JsonList.drop] at hra
+    simp [outItems, pres s false x h.1 ha.1, presItems ss f xs h.2 ha.2 hra]
+
+theorem presRest : (rest : SOpt) → (xs : JsonList) → reprCa rest = true → restAccepts rest xs = true →
+    xs.map (outRest rest) = xs
+  | .none, xs, _, _ => map_eq_self _ (fun _ => true) (fun _ _ => rfl) xs (list_all_true xs)
+  | .some r, xs, h, ha =>
+    map_eq_self _ (accepts r) (fun x hx => pres r false x (by simpa [reprCa] using h) hx) xs
+      (by simpa [restAccepts] using ha)
+
+theorem presFirst : (ms : SList) → (x : Json) → reprMembers ms = true → outFirst ms x = x
+  | .nil, _, _ => rfl
+  | .cons s ss, x, h => by
+    simp only [reprMembers, Bool.and_eq_true] at h
+    simp only [outFirst]
+    split
+    · rename_i ha; exact pres s false x h.1.2 ha
+    · exact presFirst ss x h.2
+end
+
+/-! ### strip-mode object at the top: the two directions speak about different values -/
+
+theorem filter_instOK (p : Str → Bool) : (fs : JsonFields) → instFieldsOK fs = true → instFieldsOK (fs.filter p) = true
+  | .nil, _ => rfl
+  | .cons k v fs, h => by
+    simp only [instFieldsOK, Bool.and_eq_true] at h
+    simp only [JsonFields.filter]
+    split
+    · simp [instFieldsOK, h.1.1, h.1.2, filter_instOK p fs h.2]
+    · exact filter_instOK p fs h.2
+
+theorem find_filter (p : Str → Bool) (k : Str) (hk : p k = true) : (fs : JsonFields) → (fs.filter p).find k = fs.find k
+  | .nil => rfl
+  | .cons k' v fs => by
+    simp only [JsonFields.filter]
+    split
+    · simp [JsonFields.find, find_filter p k hk fs]
+    · rename_i hp
+      have : k' ≠ k := by intro h; subst h; simp_all
+      simp [JsonFields.find, this, find_filter p k hk fs]
+
+theorem filter_all (p : Str → Bool) (q : Str → Json → Bool) (h : ∀ k v, p k = true → q k v = true) :
+    (fs : JsonFields) → (fs.filter p).all q = true
+  | .nil => rfl
+  | .cons k v fs => by
+    simp only [JsonFields.filter]
+    split
+    · rename_i hp; simp [JsonFields.all, h k v hp, filter_all p q h fs]
+    · exact filter_all p q h fs
+
+theorem filter_id (p : Str → Bool) : (fs : JsonFields) → fs.all (fun k _ => p k) = true → fs.filter p = fs
+  | .nil, _ => rfl
+  | .cons k v fs, h => by
+    simp only [JsonFields.all, Bool.and_eq_true] at h
+    simp [JsonFields.filter, h.1, filter_id p fs h.2]
+
+theorem shapeAccepts_filter (part : Bool) (p : Str → Bool) (fs : JsonFields) :
+    (sh : Shape) → (∀ k ∈ sh.keys, p k = true) → shapeAccepts part sh (fs.filter p) = shapeAccepts part sh fs
+  | .nil, _ => rfl
+  | .cons k s rest, h => by
+    have hk : p k = true := h k (by simp [Shape.keys])
+    have ih := shapeAccepts_filter part p fs rest (fun k' hk' => h k' (by simp [Shape.keys, hk']))
+    simp [shapeAccepts, find_filter p k hk fs, ih]
+
+/-- the document of a strip-mode object on an object instance. -/
+theorem strip_doc (ca : SOpt) (cks : List SzCk) (shape : Shape) (top o n : Bool) (fs : JsonFields)
+    (hsz : szSimple cks = true) (hca : reprCa ca = true) (hsh : reprShape shape = true)
+    (hfs : instFieldsOK fs = true) :
+    jsValid (toJS top o n (.obj .strip ca false cks shape)) (.obj fs)
+      = (shapeAccepts false shape fs
+         && fs.all (fun k v => shape.keys.contains k || jsValid (caJS ca false) v)
+         && szOk cks fs.size) := by
+  have hk := obj_propKeys shape (caJS ca Mode.strip.isLoose) (propsKws (szBag cks)) (propsKws_noprops _)
+  simp only [toJS, jsValid_node]
+  rw [hk]
+  simp only [List.all_append, List.all_cons, List.all_nil, Bool.and_true, kwValid, typeOk, Bool.true_and,
+    propsKws_valid cks _ fs hsz, props_kw_valid, req_kw_valid, Mode.isLoose]
+  rw [← eqvShape shape hsh fs hfs]
+
+theorem sound_strip (ca : SOpt) (cks : List SzCk) (shape : Shape) (top o n : Bool) (x : Json)
+    (hsz : szSimple cks = true) (hca : reprCa ca = true) (hsh : reprShape shape = true)
+    (hx : instOK x = true) (ha : accepts (.obj .strip ca false cks shape) x = true) :
+    jsValid (toJS top o n (.obj .strip ca false cks shape)) (out (.obj .strip ca false cks shape) x) = true := by
+  cases x <;> simp [accepts] at ha
+  rename_i fs
+  have hfs : instFieldsOK fs = true := by simpa [instOK] using hx
+  simp only [out]
+  rw [strip_doc ca cks shape top o n _ hsz hca hsh (filter_instOK _ fs hfs)]
+  rw [shapeAccepts_filter false _ fs shape (by intro k hk; simpa using hk)]
+  rw [filter_all _ _ (by intro k v hk; simp only [Bool.or_eq_true]; exact Or.inl hk) fs]
+  simp [ha.1]
+  simpa using ha.2
+
+theorem complete_strip (ca : SOpt) (cks : List SzCk) (shape : Shape) (top o n : Bool) (x : Json)
+    (hsz : szSimple cks = true) (hcs : (!ca.isSome || cks.isEmpty) = true)
+    (hca : reprCa ca = true) (hsh : reprShape shape = true)
+    (hx : instOK x = true) (hv : jsValid (toJS top o n (.obj .strip ca false cks shape)) x = true) :
+    accepts (.obj .strip ca false cks shape) x = true := by
+  cases x with
+  | obj fs =>
+    have hfs : instFieldsOK fs = true := by simpa [instOK] using hx
+    rw [strip_doc ca cks shape top o n fs hsz hca hsh hfs] at hv
+    simp only [Bool.and_eq_true] at hv
+    simp only [accepts, Bool.and_eq_true, hv.1.1, true_and, Bool.and_true]
+    cases ca with
+    | none =>
+      have : fs.all (fun k _ => shape.keys.contains k) = true := by
+        have := hv.1.2; simpa [caJS, jsValid] using this
+      rw [filter_id _ fs this]; exact hv.2
+    | some c =>
+      have : cks = [] := by simpa [SOpt.isSome] using hcs
+      subst this; simp [szOk]
+  | _ => simp [toJS, jsValid_node, kwValid, typeOk] at hv
+
+/-! ## the property -/
+
+/-- C07 at full strength: for every schema and instance, what Parse returns validates and what
+    validates is accepted.  FALSE on the pinned tree (witnesses below). -/
+def c07_full : Prop :=
+  ∀ (s : S) (x : Json),
+    (∀ r, parse s x = some r → jsValid (toDoc s) r = true)
+    ∧ (jsValid (toDoc s) x = true → (parse s x).isSome = true)
+
+/-- on the value-preserving representable fragment validity and acceptance coincide. -/
+theorem c07_equiv_partial (s : S) (x : Json) (h : reprP true s = true) (hx : instOK x = true) :
+    jsValid (toDoc s) x = accepts s x := eqv s true false false x h hx
+
+/-- … and Parse returns its input there. -/
+theorem c07_pres (s : S) (x : Json) (h : reprP true s = true) (ha : accepts s x = true) : out s x = x :=
+  pres s true x h ha
+
+/-- sound: the value Parse returns validates against the emitted document. -/
+theorem c07_sound (s : S) (x r : Json) (h : reprTop true s = true) (hx : instOK x = true)
+    (hp : parse s x = some r) : jsValid (toDoc s) r = true := by
+  unfold parse at hp
+  split at hp
+  · rename_i ha
+    cases hp
+    unfold reprTop at h
+    split at h
+    · simp only [Bool.and_eq_true, Bool.not_eq_true'] at h
+      obtain ⟨⟨⟨⟨hp, hsz⟩, _⟩, hca⟩, hsh⟩ := h
+      subst hp
+      exact sound_strip _ _ _ true false false x hsz hca hsh hx ha
+    · rw [pres _ true x h ha, toDoc, eqv _ true false false x h hx, ha]
+  · simp at hp
+
+/-- complete: an instance that validates against the emitted document is accepted. -/
+theorem c07_complete (s : S) (x : Json) (h : reprTop true s = true) (hx : instOK x = true)
+    (hv : jsValid (toDoc s) x = true) : (parse s x).isSome = true := by
+  have ha : accepts s x = true := by
+    unfold reprTop at h
+    split at h
+    · simp only [Bool.and_eq_true, Bool.not_eq_true'] at h
+      obtain ⟨⟨⟨⟨hp, hsz⟩, hcs⟩, hca⟩, hsh⟩ := h
+      subst hp
+      exact complete_strip _ _ _ true false false x hsz hcs hca hsh hx hv
+    · rw [← eqv _ true false false x h hx]; exact hv
+  simp [parse, ha]
+
+/-- the hypotheses are satisfiable by non-trivial values. -/
+example : reprTop true (.obj .strip .none false [.min 1]
+      (.cons [97] (.str [.min 2, .max 3]) (.cons [98] (.opt (.nul (.int .int [.gte 0]))) .nil))) = true
+    ∧ instOK (.obj (.cons [97] (.str [109, 109]) (.cons [122] (.num 4) .nil))) = true := by decide
+
+example : reprP true (.union (.cons (.slice (.str [.sw [97]]) [.max 2]) (.cons (.tup .none [] (.cons .bool .nil)) .nil))) = true := by
+  decide
+
+/-! ### well-formedness of the emitted document -/
+
+theorem wfKws_ofList (l : List Kw) : wfKws (KwList.ofList l) = l.all wfKw := by
+  induction l with
+  | nil => rfl
+  | cons k ks ih => simp [KwList.ofList, wfKws, ih]
+
+theorem wf_optKw {α} (o : Option α) (f : α → Kw) (h : ∀ a, wfKw (f a) = true) : (optKw o f).all wfKw = true := by
+  cases o <;> simp [optKw, h]
+
+theorem wf_patKws (ps : List Pat) : (patKws ps).all wfKw = true := by
+  have hl : ∀ qs : List Pat, wfList (qs.foldr (fun p acc => JSList.cons (.node (.cons (.pattern p) .nil)) acc) .nil) = true := by
+    intro qs; induction qs with
+    | nil => rfl
+    | cons q qs ih => simp [wfList, wfJS, wfKws, wfKw, ih]
+  match ps with
+  | [] => rfl
+  | [p] => simp [patKws, wfKw]
+  | p :: q :: ps =>
+    have := hl (p :: q :: ps)
+    simp only [patKws, List.all_cons, List.all_nil, wfKw, this, Bool.and_true, Bool.true_and]
+    simp [JSList.length]
+
+theorem wf_numKws (u : Int) (cks : List NumCk) (top : Bool) (d : Int × Int) : (numKws u cks top d).all wfKw = true := by
+  unfold numKws
+  simp only [List.all_append, Bool.and_eq_true]
+  refine ⟨⟨⟨⟨⟨?_, ?_⟩, ?_⟩, ?_⟩, ?_⟩, ?_⟩ <;> first | (split <;> simp [wfKw]) | (apply wf_optKw; intro a; simp [wfKw])
+
+mutual
+theorem wf : (s : S) → (top o n : Bool) → reprP top s = true → wfJS (toJS top o n s) = true
+  | .str cks, _, _, _, _ => by
+    simp only [toJS, wfJS, wfKws_ofList, strKws, List.all_append, Bool.and_eq_true]
+    exact ⟨⟨⟨by simp [wfKw], wf_patKws _⟩, wf_optKw _ _ (by simp [wfKw])⟩, wf_optKw _ _ (by simp [wfKw])⟩
+  | .int k cks, _, _, _, _ => by simp [toJS, wfJS, wfKws_ofList, wfKw, wf_numKws]
+  | .flt cks, _, _, _, _ => by simp [toJS, wfJS, wfKws_ofList, wfKw, wf_numKws]
+  | .bool, _, _, _, _ => by simp [toJS, wfJS, wfKws_ofList, wfKw]
+  | .nil, _, _, _, _ => by simp [toJS, nullJS, wfJS, wfKws, wfKw]
+  | .any, _, _, _, _ => by simp [toJS, nullJS, wfJS, wfKws_ofList, wfKws, wfKw, wfList, JSList.length]
+  | .never, _, _, _, _ => by simp [toJS, wfJS, wfKws_ofList, wfKw]
+  | .enum vs, _, _, _, _ => by simp [toJS, wfJS, wfKws_ofList, wfKw]
+  | .lit vs, _, _, _, _ => by
+    simp only [toJS, wfJS, wfKws_ofList, List.all_append, Bool.and_eq_true]
+    constructor
+    · cases vs with
+      | nil => rfl
+      | cons v vs => cases v <;> simp [litType, wfKw]
+    · match vs with
+      | [] => simp [litVal, wfKw]
+      | [v] => simp [litVal, wfKw]
+      | v :: w :: vs => simp [litVal, wfKw]
+  | .opt s, top, o, n, h => by
+    simp only [reprP, Bool.and_eq_true] at h
+    simpa [toJS] using wf s top true n h.2
+  | .nul s, top, o, n, h => by
+    simp only [reprP] at h
+    have ih := wf s top o true h
+    simp only [toJS]
+    split
+    · exact ih
+    · simp [wfJS, wfKws_ofList, wfKw, wfList, ih, nullJS, wfKws, JSList.length]
+  | .obj mode ca part cks shape, top, o, n, h => by
+    simp only [reprP, Bool.and_eq_true] at h
+    have hs := wfShape shape h.2
+    have hc : wfJS (caJS ca mode.isLoose) = true := by
+      cases ca with
+      | none => simp [caJS, wfJS]
+      | some c => simpa [caJS] using wf c false false false (by simpa [reprCa] using h.1.2)
+    simp only [toJS, wfJS, wfKws_ofList, List.all_append, List.all_cons, List.all_nil, Bool.and_eq_true, Bool.and_true]
+    refine ⟨⟨⟨⟨by simp [wfKw], ?_⟩, ?_⟩, by simpa [wfKw] using hc⟩, ?_⟩
+    · split <;> simp [wfKw, hs]
+    · split <;> simp [wfKw]
+    · unfold propsKws; simp only [List.all_append, Bool.and_eq_true]
+      exact ⟨wf_optKw _ _ (by simp [wfKw]), wf_optKw _ _ (by simp [wfKw])⟩
+  | .slice e cks, top, o, n, h => by
+    simp only [reprP, Bool.and_eq_true] at h
+    have ih := wf e false false false h.2
+    simp only [toJS, wfJS, wfKws_ofList, List.all_append, List.all_cons, List.all_nil, Bool.and_eq_true, Bool.and_true]
+    refine ⟨⟨by simp [wfKw], by simpa [wfKw] using ih⟩, ?_⟩
+    unfold itemsKws; simp only [List.all_append, Bool.and_eq_true]
+    exact ⟨wf_optKw _ _ (by simp [wfKw]), wf_optKw _ _ (by simp [wfKw])⟩
+  | .arr rest cks items, top, o, n, h => by
+    simp only [reprP, Bool.and_eq_true] at h
+    obtain ⟨⟨⟨hck, hlen⟩, hrest⟩, hitems⟩ := h
+    have hck' : cks = [] := by simpa using hck
+    subst hck'
+    have hl := wfListS items hitems
+    cases rest with
+    | some r =>
+      have hr := wf r false false false (by simpa [reprCa] using hrest)
+      simp only [toJS, lenBag_nil, wfJS, wfKws_ofList, List.append_nil, List.all_append, List.all_cons, List.all_nil]
+      split <;> simp [wfKw, hr, hl]
+    | none =>
+      have hne : (items.length == 1) = false := by simpa using hlen
+      simp only [toJS, lenBag_nil, wfJS, wfKws_ofList, List.append_nil, List.all_append, List.all_cons, List.all_nil, hne]
+      simp only [Bool.false_eq_true, if_false]
+      split <;> simp [wfKw, hl]
+  | .tup rest cks items, top, o, n, h => by
+    simp only [reprP, Bool.and_eq_true] at h
+    obtain ⟨⟨⟨hck, _⟩, hrest⟩, hitems⟩ := h
+    have hck' : cks = [] := by simpa using hck
+    subst hck'
+    have hl := wfListS items hitems
+    cases rest with
+    | some r =>
+      have hr := wf r false false false (by simpa [reprCa] using hrest)
+      simp only [toJS, lenBag_nil, wfJS, wfKws_ofList, List.append_nil, List.all_append, List.all_cons, List.all_nil]
+      split <;> simp [wfKw, hr, hl]
+    | none =>
+      simp only [toJS, lenBag_nil, wfJS, wfKws_ofList, List.append_nil, List.all_append, List.all_cons, List.all_nil]
+      split <;> simp [wfKw, hl]
+  | .record key val cks, top, o, n, h => by
+    simp only [reprP, Bool.and_eq_true] at h
+    have hk := wf key false false false h.1.1.2
+    have hv := wf val false false false h.2
+    simp only [toJS, wfJS, wfKws_ofList, List.all_append, List.all_cons, List.all_nil, Bool.and_eq_true, Bool.and_true]
+    refine ⟨by simp [wfKw, hk, hv], ?_⟩
+    unfold propsKws; simp only [List.all_append, Bool.and_eq_true]
+    exact ⟨wf_optKw _ _ (by simp [wfKw]), wf_optKw _ _ (by simp [wfKw])⟩
+  | .union ms, top, o, n, h => by
+    simp only [reprP, Bool.and_eq_true] at h
+    have hsp := members_noSpecial ms h.2
+    have hl := wfMembers ms h.2
+    have hne : 0 < (listJS ms).length := by
+      rw [listJS_length]; cases ms <;> simp_all [SList.length]
+    simp [toJS, hsp, wfJS, wfKws_ofList, wfKw, hl, hne]
+  | .xor ms, top, o, n, h => by
+    simp only [reprP, Bool.and_eq_true] at h
+    have hl := wfMembers ms h.2
+    have hne : 0 < (listJS ms).length := by
+      rw [listJS_length]; cases ms <;> simp_all [SList.length]
+    simp [toJS, wfJS, wfKws_ofList, wfKw, hl, hne]
+  | .and l r, top, o, n, h => by
+    simp only [reprP, Bool.and_eq_true] at h
+    simp [toJS, wfJS, wfKws_ofList, wfKw, wfList, wf l false false false h.1.2, wf r false false false h.2, JSList.length]
+
+theorem wfListS : (ss : SList) → reprList ss = true → wfList (listJS ss) = true
+  | .nil, _ => rfl
+  | .cons s ss, h => by
+    simp only [reprList, Bool.and_eq_true] at h
+    simp [listJS, wfList, wf s false false false h.1, wfListS ss h.2]
+
+theorem wfMembers : (ss : SList) → reprMembers ss = true → wfList (listJS ss) = true
+  | .nil, _ => rfl
+  | .cons s ss, h => by
+    simp only [reprMembers, Bool.and_eq_true] at h
+    simp [listJS, wfList, wf s false false false h.1.2, wfMembers ss h.2]
+
+theorem wfShape : (sh : Shape) → reprShape sh = true → wfProps (propsJS sh) = true
+  | .nil, _ => rfl
+  | .cons k s rest, h => by
+    simp only [reprShape, Bool.and_eq_true] at h
+    simp [propsJS, wfProps, wf s false false false h.1, wfShape rest h.2]
+end
+
+/-- the emitted document is well formed (and, having no `$ref`, has no unresolved reference). -/
+theorem c07_wellformed (s : S) (h : reprP true s = true) : wfJS (toDoc s) = true := wf s true false false h
+
+/-! ## witnesses: outside `reprTop` / `instOK` the full statement fails on the pinned code
+    (each is replayed on the real code by the correspondence; class names as in known-findings.txt) -/
+
+/-- complete fails. -/
+def Incomplete (s : S) (x : Json) : Prop := jsValid (toDoc s) x = true ∧ accepts s x = false
+/-- sound fails. -/
+def Unsound (s : S) (x : Json) : Prop := accepts s x = true ∧ jsValid (toDoc s) (out s x) = false
+
+instance (s : S) (x : Json) : Decidable (Incomplete s x) := by unfold Incomplete; infer_instance
+instance (s : S) (x : Json) : Decidable (Unsound s x) := by unfold Unsound; infer_instance
+
+def o1 (k : Str) (v : Json) : Json := .obj (.cons k v .nil)
+
+theorem witness_bytes_vs_codepoints : Incomplete (.str [.len 1]) (.str [233]) ∧ Unsound (.str [.min 3]) (.str [233, 233]) := by decide
+theorem witness_trim_before_min : Incomplete (.str [.trim, .min 2]) (.str [32, 32]) := by decide
+theorem witness_optional_null : Unsound (.opt (.str [])) .null := by decide
+theorem witness_partial_required :
+    Unsound (.obj .strip .none true [] (.cons [97] (.str []) .nil)) (.obj .nil) := by decide
+theorem witness_array_single_item : Incomplete (.arr .none [] (.cons (.str []) .nil)) (.arr .nil) := by decide
+theorem witness_rest_without_min_items :
+    Incomplete (.arr (.some .bool) [] (.cons (.str []) .nil)) (.arr .nil) := by decide
+theorem witness_array_length_keyword : Incomplete (.arr (.some .bool) [.min 2] .nil) (.arr .nil) := by decide
+theorem witness_record_enum_exhaustive : Incomplete (.record (.enum [[97]]) .bool []) (.obj .nil) := by decide
+theorem witness_union_nil : Incomplete (.union (.cons (.str []) (.cons .nil .nil))) .null := by decide
+theorem witness_num_bound_merge : Incomplete (.int .int [.gt 5, .gte 5]) (.num 20) := by decide
+theorem witness_length_overwrites : Incomplete (.str [.min 5, .len 3]) (.str [109, 109, 109]) := by decide
+theorem witness_size_overwrites :
+    Incomplete (.slice .bool [.len 2, .max 4])
+      (.arr (.cons (.bool true) (.cons (.bool true) (.cons (.bool true) .nil)))) := by decide
+theorem witness_int_kind_range : Incomplete (.int .u8 [.lte 1]) (.num (-4)) := by decide
+theorem witness_strict_catchall :
+    Incomplete (.obj .strict (.some .bool) false [] .nil) (o1 [122] (.bool true)) := by decide
+theorem witness_nested_strip :
+    Unsound (.slice (.obj .strip .none false [] .nil) []) (.arr (.cons (o1 [119] (.num 4)) .nil)) := by decide
+theorem witness_strip_size_after_strip :
+    Incomplete (.obj .strip (.some (.int .int [])) false [.min 2] (.cons [97] (.str []) .nil))
+      (.obj (.cons [97] (.str [109]) (.cons [122] (.num 4) .nil))) := by decide
+theorem witness_literal_mixed_kinds : Unsound (.lit [.str [97], .num 4]) (.num 4) := by decide
+
+/-- the full statement is false for the code as it stands. -/
+theorem c07_full_false : ¬ c07_full := by
+  intro h
+  have h1 := (h (.str [.len 1]) (.str [233])).2 (by decide)
+  revert h1; decide
 
 end Gozod.C07
